@@ -130,7 +130,7 @@ def decode_plan(fn, t, cid):
         old, new, cfg = t
         return {"id": cid, "fn": fn, "old": old, "new": new, "itemsize": cfg[0], "threshold": cfg[1],
                 "limit": cfg[2], "degree": cfg[3]}
-    if fn == "merge_to_number":
+    if fn in ("merge_to_number", "divide_to_width"):
         return {"id": cid, "fn": fn, "c": t[0], "k": t[1]}
     if fn == "normalize_chunks":
         sh, sp, cfg, prev = t
@@ -166,6 +166,12 @@ def plan_rechunk(c):
 
 def merge_to_number(c):
     from dask_array._rechunk import merge_to_number as f
+
+    return dict(c, out=[int(v) for v in f(tuple(c["c"]), c["k"])])
+
+
+def divide_to_width(c):
+    from dask_array._rechunk import divide_to_width as f
 
     return dict(c, out=[int(v) for v in f(tuple(c["c"]), c["k"])])
 
